@@ -68,6 +68,9 @@ class ClassSpec:
         self.invariant = getattr(impl, "invariant", None)
         self.mutable: List[str] = list(getattr(impl, "mutable", []) or [])
         self.props: Dict[str, Any] = dict(getattr(impl, "props", {}) or {})  # abstract property kinds (interfaces)
+        # a mutable builder-like class: fresh immutable objects handed to its methods are published (their fields become
+        # facts about the field functions of their reference) because they may be stored in its symbolic lists
+        self.owns_state: bool = bool(getattr(impl, "owns_state", False))
 
 
 class Registry:
